@@ -1470,7 +1470,7 @@ def part_plt(ctx, h, objdir):
             c = cases[(r["madj"] or r["mrun"])[0]]
             ctx.violation("model and utils/symbol.c load_elf_dynsymtab disagree (%d files)" % len(set(r["madj"] + r["mrun"])),
                           p_replay_obj(c), False)
-    plt_noplt_witness(ctx, objdir, w)
+    plt_noplt_case(ctx, h, objdir, w)
     # recordings: every call through a PLT slot is shown under the slot's name
     for name, exe, f, funcs, pie in recs_todo:
         d = os.path.join(w, "data-" + name)
@@ -1526,32 +1526,74 @@ int main(int argc, char **argv)
 """
 
 
-def plt_noplt_witness(ctx, objdir, w):
-    """dedicated witness of a listed defect: a non-PIE built with -fno-plt (calls through GOT, GLOB_DAT relocations)"""
+def plt_noplt_case(ctx, h, objdir, w):
+    """regression case (fixed: 9d75b95): a non-PIE built with -fno-plt - calls go through the GOT (GLOB_DAT relocations),
+    libmcount records them under the address of the relocation entry, arch_load_dynsymtab_noplt makes pseudo PLT symbols"""
+    import re
     uft = os.path.join(objdir, "uftrace")
     open(os.path.join(w, "noplt.c"), "w").write(P_NOPLT_SRC)
-    sh(["gcc", "-pg", "-O0", "-fno-builtin", "-fno-plt", "-fno-pie", "-no-pie", "-o", "noplt", "noplt.c"], cwd=w, check=True)
-    d = os.path.join(w, "data-noplt")
-    rc, out, err = sh(["timeout", "40", uft, "record", "--no-pager", "--no-event", "--libmcount-path=" + objdir, "-d", d, "./noplt"],
+    for exe, fl in (("noplt", ["-fno-pie", "-no-pie"]), ("noplt_pie", ["-fPIE", "-pie"])):
+        sh(["gcc", "-pg", "-O0", "-fno-builtin", "-fno-plt"] + fl + ["-o", exe, "noplt.c"], cwd=w, check=True)
+        path = os.path.join(w, exe)
+        # ground truth: pseudo symbol of the i-th .rela.dyn entry = .rela.dyn address + i * 24 - first PT_LOAD address
+        _, out, _ = sh(["readelf", "-lW", path], check=True)
+        vaddr0 = int([l for l in out.splitlines() if l.strip().startswith("LOAD")][0].split()[2], 16)
+        _, out, _ = sh(["readelf", "-SW", path], check=True)
+        m = re.search(r"\]\s+\.rela\.dyn\s+\S+\s+([0-9a-f]{16})", out)
+        reladyn = int(m.group(1), 16)
+        _, out, _ = sh(["readelf", "-rW", path], check=True)
+        truth, on, idx = {}, False, 0
+        for l in out.splitlines():
+            if l.startswith("Relocation section"):
+                on = "'.rela.dyn'" in l
+                idx = 0
+                continue
+            k = l.split()
+            if on and len(k) >= 3 and len(k[0]) == 16 and k[0] != "Offset":
+                if "GLOB_DAT" in k[2] and len(k) >= 5 and k[4].split("@")[0] in ("atoi", "strlen", "getpid"):
+                    truth[k[4].split("@")[0]] = reladyn + idx * 24 - vaddr0
+                idx += 1
+        symf = os.path.join(w, exe + ".sym")
+        if os.path.exists(symf):
+            os.unlink(symf)
+        out = h.run(["ELFMOD %s" % path, "SAVESYM %s %s -" % (symf, hx(path)), "LOADSYM %s" % symf])
+        tmod, out = parse_tab(out)
+        tre, _ = parse_tab(out[1:])
+        d = os.path.join(w, "data-" + exe)
+        rc, o, e = sh(["timeout", "40", uft, "record", "--no-pager", "--no-event", "--libmcount-path=" + objdir, "-d", d, "./" + exe],
                       timeout=60, cwd=w)
-    if rc == 124 or not os.path.exists(os.path.join(d, "task.txt")):
-        ctx.broken("plt(noplt): uftrace record failed (rc=%d): %s" % (rc, (out + err)[-300:]))
-        return
-    rc, rout, rerr = datadir.uftrace(objdir, "replay", d, ["-f", "tid,addr,time,module", "--demangle=no"])
-    recs = parse_replay_fields(rout)
-    names = [r[4] for r in recs]
-    raw = [n for n in names if n.startswith("<")]
-    ctx.case(key=("P", "noplt"), tags=["P:no-plt-non-pie"], size=len(recs))
-    if "main" not in names or "c10p_user" not in names:
-        ctx.violation("recording of a non-PIE -fno-plt executable: the executable's own functions are not resolved",
-                      {"part": "P", "exe": "noplt", "replay": rout[-1500:]}, True)
-        return
-    resolved = [n for n in ("atoi", "strlen", "getpid") if n in names]
-    ctx.known_finding("noplt-nonpie", "calls through the GOT of a non-PIE -fno-plt executable are shown as raw addresses",
-                      still_fails=bool(raw), replay={"part": "P", "exe": "noplt", "source": P_NOPLT_SRC, "raw": raw, "resolved": resolved,
-                                                     "replay": rout[-1500:]})
-    if not raw and len(resolved) != 3:
-        ctx.broken("plt(noplt): witness did not run as designed (no raw address, but %s resolved)" % resolved, rout[-1200:])
+        if rc == 124 or not os.path.exists(os.path.join(d, "task.txt")):
+            ctx.broken("plt(%s): uftrace record failed (rc=%d): %s" % (exe, rc, (o + e)[-300:]))
+            continue
+        rc, rout, rerr = datadir.uftrace(objdir, "replay", d, ["-f", "tid,addr,time,module", "--demangle=no"])
+        names = [r[4] for r in parse_replay_fields(rout)]
+        trec, _ = parse_tab(h.run(["LOADSYM %s" % os.path.join(d, exe + ".sym")]))
+        defs = "Definition nt : list (str * Z) := [%s].\nDefinition ntabs : list symtab := [%s; %s; %s].\n" % (
+            "; ".join("(%s, %d)" % (cstr(n), a) for n, a in sorted(truth.items())), ctab(tmod), ctab(tre), ctab(trec))
+        defs += "Definition nnames : list str := [%s].\nDefinition nwant : list str := [%s].\n" % (
+            "; ".join(cstr(n) for n in names), "; ".join(cstr(n) for n in ("main", "atoi", "strlen", "getpid", "c10p_user")))
+        res = coq.run_cases(ctx, "cases_noplt_" + exe, PRE, defs, [
+            # every pseudo PLT symbol at (relocation entry address - module base), in all three tables
+            ("vtab", "bad_indices (fun tab => forallb (fun p => existsb (fun s => (s_type s =? K_ST_PLT_FUNC) && str_eqb (s_name s) (fst p) "
+                     "&& (s_addr s =? snd p)) tab) nt) ntabs 0"),
+            # every call of the run is shown by name
+            ("vname", "bad_indices (fun n => existsb (str_eqb n) nnames) nwant 0"),
+            ("vraw", "bad_indices (fun n => negb (prefix [60] n)) nnames 0"),
+        ])
+        ctx.case(key=("P", exe), tags=["P:no-plt-pie" if "pie" in exe else "P:no-plt-non-pie"], size=len(names))
+        if res is None:
+            continue
+        r = {k: coq.parse_nat_list(v) for k, v in res.items()}
+        if len(truth) != 3:
+            ctx.broken("plt(%s): expected GLOB_DAT relocations for atoi/strlen/getpid, found %s" % (exe, sorted(truth)))
+        if r["vtab"] or r["vname"] or r["vraw"]:
+            which = [["module table (ELF)", "reloaded .sym", ".sym written by record"][i] for i in r["vtab"]]
+            ctx.violation("non-PIE/PIE executable built with -fno-plt: " + "; ".join(
+                ([("pseudo PLT symbols of GOT calls are not module-relative in: " + ", ".join(which))] if which else [])
+                + (["library calls are shown as raw addresses / missing: %s" % [n for n in names if n.startswith("<")]] if (r["vname"] or r["vraw"]) else [])),
+                {"part": "P", "exe": exe, "source": P_NOPLT_SRC, "flags": fl, "expected_relative": {k: "%x" % v for k, v in truth.items()},
+                 "module_table_P": [["%x" % a, n.decode()] for a, sz, t, n in tmod if t == "P"],
+                 "recorded_sym_P": [["%x" % a, n.decode()] for a, sz, t, n in trec if t == "P"], "replay": rout[-1500:]}, True)
 
 
 def p_replay_obj(c):
